@@ -1673,7 +1673,9 @@ impl ProtocolState {
         assert!(self.pending_publish_operations.is_empty());
         assert!(self.pending_non_publish_operations.is_empty());
         assert!(self.operation_ack_timeouts.is_empty());
-        assert!(self.pending_write_completion_operations.is_empty());
+        // the CONNACK can arrive after the CONNECT was handed to the socket but before its write
+        // completion is reported; nothing other than the CONNECT can be awaiting write completion
+        assert!(self.pending_write_completion_operations.iter().all(|id| self.is_connect_packet(*id)));
 
         result
     }
